@@ -29,20 +29,20 @@ Definition nabs (x : num) : num := if nltb x (nlit 0) then qopp x else x.
 Definition nmin (x y : num) : num := if nleb x y then x else y.
 Definition nmax (x y : num) : num := if nleb x y then y else x.
 Fixpoint npow (x : num) (n : nat) : num := match n with O => nlit 1 | S k => qmul x (npow x k) end.
-(* stand-ins: U_sqrt x = (3x+1)/(x^2+2), U_exp x = (2x-5)/(x^2+3): total, non-monotone, cheap *)
-Definition nsqrt (x : num) : num := qdiv (qadd (qmul (nlit 3) x) (nlit 1)) (qadd (qmul x x) (nlit 2)).
-Definition nexp (x : num) : num := qdiv (qsub (qmul (nlit 2) x) (nlit 5)) (qadd (qmul x x) (nlit 3)).
-Definition nrpow (x y : num) : num := qdiv (qadd (qmul (nlit 5) x) y) (qadd (qadd (qmul x x) (qmul y y)) (nlit 7)).
+(* stand-ins are AFFINE with pairwise different coefficients: injective in every argument, different
+   functions differ, and the size of the rationals grows only additively (vm_compute stays fast) *)
+Definition nsqrt (x : num) : num := qadd (qmul (nlit 3) x) (nlit 1).
+Definition nexp (x : num) : num := qsub (qmul (nlit 2) x) (nlit 5).
+Definition nrpow (x y : num) : num := qadd (qadd (qmul (nlit 5) x) (qmul (nlit 3) y)) (nlit 7).
 Definition nraise : num := nlit 0.
 Definition dist_raise : dist num := mk_dist (fun _ => nlit 0) (fun _ => nlit 0) (fun _ => nlit 0) (fun _ => nlit 0).
 Definition oget_dist (o : option (dist num)) : dist num := match o with Some d => d | None => dist_raise end.
 Definition eadd (a : ext num) (b : num) : ext num := match a with Fin x => Fin (x + b)%num | PInf => PInf | NInf => NInf end.
 Definition esub (a : ext num) (b : num) : ext num := match a with Fin x => Fin (x - b)%num | PInf => PInf | NInf => NInf end.
 
-(* stand-in distribution family: U(kind, method, params, x) = (c0 + c1 x + c2 p1 + c3 p2) / (1 + x^2 + p1^2 + p2^2) *)
+(* stand-in distribution family: U(kind, method, params, x) = c0 + c1 x + c2 p1 + c3 p2 *)
 Definition ufun (c0 c1 c2 c3 : Z) (p1 p2 x : num) : num :=
-  qdiv (qadd (qadd (qadd (nlit c0) (qmul (nlit c1) x)) (qmul (nlit c2) p1)) (qmul (nlit c3) p2))
-        (qadd (qadd (qadd (nlit 1) (qmul x x)) (qmul p1 p1)) (qmul p2 p2)).
+  qadd (qadd (qadd (nlit c0) (qmul (nlit c1) x)) (qmul (nlit c2) p1)) (qmul (nlit c3) p2).
 Definition udist (k : Z) (p1 p2 : num) : dist num :=
   mk_dist (ufun (k+1) 2 3 5 p1 p2) (ufun (k+2) 3 5 7 p1 p2) (ufun (k+3) 5 7 11 p1 p2) (ufun (k+4) 7 11 13 p1 p2).
 Definition ufam : dist_family num :=
